@@ -176,7 +176,7 @@ def serialized_extended_key(
     if type(depth) is int:
         depth = depth.to_bytes(1, "big")
     if type(child_no) is int:
-        child_no = depth.to_bytes(4, "big")
+        child_no = child_no.to_bytes(4, "big")
     payload = version + depth + parent_key_fingerprint + child_no + chaincode + ser_key
     return base58check(payload)
 
